@@ -69,10 +69,11 @@ def read_frame(out):
 
 
 def reset_globals():
-    for nm in ("GLOBAL_PRIOR_COMB_COUNTS", "GLOBAL_CARDINALITY_STORAGE", "GLOBAL_COUNTS_STORAGE", "GLOBAL_RARE_VALUE_STORAGE"):
-        g = getattr(cr, nm, None)
-        if g is not None:
-            g.clear()
+    for nm in dir(cr):                       # the known module state and any further GLOBAL_* container a rewrite may add
+        if nm.startswith("GLOBAL_"):
+            g = getattr(cr, nm)
+            if hasattr(g, "clear"):
+                g.clear()
     if hasattr(cr, "IGNORED_VALUES"):
         cr.IGNORED_VALUES.clear()
 
@@ -100,7 +101,9 @@ def base_args(case):
 
 
 def run_case(case):
-    reset_globals()
+    keep = bool(case.get("keep_state"))     # histories: consecutive batches of one process share the module state
+    if not keep:
+        reset_globals()
     np.random.seed(case.get("np_seed", 0))
     df = pd.DataFrame(case["rows"], columns=case["names"])
     args = base_args(case)
@@ -136,7 +139,8 @@ def run_case(case):
         if orig is not None:
             cr.mixed_rank_graph = wrapper
         try:
-            reset_globals()
+            if not keep:
+                reset_globals()
             np.random.seed(case.get("np_seed", 0))
             res = cr.compute_batch_ranking([list(r) for r in case["rows"]], numeric, args, FakePool(),
                                            list(case["names"]), FakeLog(), FakeBar())
